@@ -83,9 +83,12 @@ SmallIntOf(x) ==      \* x is an integer of magnitude below 10^6: its value, or 
   ELSE <<TRUE, x.neg, ToInt(MulPow10(x.c, x.q))>>
 IsPow10C(c) == c # << >> /\ c = Pow10(NumDigits(c) - 1)
 Log2Of(c) == IF \E n \in 0..113 : Pow2(n) = c THEN CHOOSE n \in 0..113 : Pow2(n) = c ELSE 0 - 1
+\* (the elementary functions promise exact results for exactly representable cases under the default nearest-even mode only:
+\* under another DefaultRoundingMode a result computed a hair below 11 may legitimately come back as 10.99...9)
 Applicable(p) ==
   LET x == reg[p.a] IN
-  CASE p.op = "SqrtSq" -> x.k = "fin" /\ Le(Mul(x.c, x.c), Cmax) /\ 2 * x.q >= Emin /\ 2 * x.q <= Emax
+  CASE p.op \in {"SqrtSq", "CbrtCube", "Exp10", "Exp2", "Log10", "Log2"} /\ mode # RNE -> FALSE
+    [] p.op = "SqrtSq" -> x.k = "fin" /\ Le(Mul(x.c, x.c), Cmax) /\ 2 * x.q >= Emin /\ 2 * x.q <= Emax
     [] p.op = "CbrtCube" -> x.k = "fin" /\ Le(Mul(Mul(x.c, x.c), x.c), Cmax) /\ 3 * x.q >= Emin /\ 3 * x.q <= Emax /\ 2 * x.q >= Emin /\ 2 * x.q <= Emax
     [] p.op = "Exp10" -> LET s == SmallIntOf(x) IN s[1] /\ (IF s[2] THEN 0 - s[3] >= Emin ELSE s[3] <= Emax)
     [] p.op = "Exp2" -> LET s == SmallIntOf(x) IN s[1] /\ (IF s[2] THEN s[3] <= 48 ELSE s[3] <= 112)
